@@ -11,7 +11,9 @@
 # short packet (or after reset).  ACK is only admitted for such a delivered packet or for a repeated toggle; a valid
 # packet must be answered; NAK is only admitted when less than max_packet_size was free at some point of the
 # transaction (class documentation: "if there isn't max_packet_size space in the endpoint buffer, this endpoint
-# will NAK"); PING must be answered ACK when mps bytes are free throughout and NAK when they are not at any point.
+# will NAK"); PING must be answered; NAK is only admitted when less than mps bytes were free at some point, ACK only if
+# a max-size packet sent right afterwards (lookahead on a fork, consumer stalled) is in fact taken.  buffer_size is
+# only used as a *lower* bound of what the endpoint can hold (hidden buffering is admitted).
 from rtlmc.model import Violation, MachineryError
 from rtlmc.explore import Spec
 from rtlmc import usbref as U
@@ -183,6 +185,7 @@ class BulkOutSpec(Spec):
         host, mps, cap = self.host, self.mps, self.cap
         kind = a[0]
         new_entries = ()
+        ping_acked = False
         n_toggle, n_active, n_acked, n_disturb = toggle, active, acked_any, disturb
         context = None
         if kind == "drain":
@@ -200,9 +203,8 @@ class BulkOutSpec(Spec):
             host.begin((a[1], a[2]))
             hs = self._handshake(host.send(cur, U.token(U.PING, 0, EP), True))
             free_min = cap - len(queue)
-            free_max = free_min + len(host.consumed)
             if hs == U.ACK:
-                if free_max < mps: raise Violation("ping:ack-without-room", dict(action=a, free=free_max, mps=mps))
+                ping_acked = True           # judged below by a lookahead: a max-size packet must now be taken
                 self.cover["ping-ack"] += 1
             elif hs == U.NAK:
                 if free_min >= mps: raise Violation("ping:nak-although-whole-packet-fits", dict(action=a, free=free_min, mps=mps))
@@ -251,7 +253,7 @@ class BulkOutSpec(Spec):
                 else:
                     raise Violation("out:no-handshake-for-valid-packet", dict(action=a, response=resp))
         consumed = tuple(host.consumed)
-        rest = host.drain_probe(cur, cap + 8)
+        rest = host.drain_probe(cur, 2 * cap + 10)     # generous: idle cycles between beats and a few hidden entries are fine
         observed = consumed + rest
         expected = queue + new_entries
         if observed != expected:
@@ -265,6 +267,20 @@ class BulkOutSpec(Spec):
                                 dict(action=a, expected=expected, observed=observed, since_last_accepted_data=disturb))
             k = diff_kind(observed, expected)
             raise Violation(context if k == "bytes" else "stream:" + k + "-on-queued-data", dict(action=a, expected=expected, observed=observed))
+        if ping_acked:
+            # "NAKs when it cannot take a whole packet": a PING was ACKed, so (the consumer can only have made more room
+            # since) a max-size packet sent right now with the consumer stalled must be taken.  Asked of the device itself
+            # on a fork rather than computed from buffer_size, so hidden buffering (output registers ...) is admitted.
+            f = cur.fork()
+            host.begin(None)
+            try:
+                host.send(f, U.token(U.OUT, 0, EP), False)
+                r = self._handshake(host.send(f, U.data_packet(U.DATA1 if toggle else U.DATA0, payload_bytes(mps)), True))
+                if r != U.ACK:
+                    raise Violation("ping:ack-without-room", dict(action=a, queue=expected[len(consumed):], mps=mps, buffer_size=cap,
+                                                                   next_max_size_packet_answered=r))
+            except PruneCollision:
+                pass
         self.outcomes.add((kind, a[1] if kind == "out" else None, len(new_entries), len(consumed)))
         return (expected[len(consumed):], n_toggle, n_active, n_acked, n_disturb)
 
